@@ -114,7 +114,7 @@ def mk_not(x):
 class Ctx:
     """one module + one class: where helpers are looked up"""
 
-    def __init__(self, mod, clsname=None, primitives=(), hook=None, bases=()):
+    def __init__(self, mod, clsname=None, primitives=(), hook=None, bases=(), sig_mods=()):
         """bases: [(module ast, class name)] whose methods the class inherits (own methods win)"""
         self.mod = mod
         self.functions = {n.name: n for n in mod.body if isinstance(n, ast.FunctionDef)}
@@ -141,6 +141,16 @@ class Ctx:
                     self.methods[n.name] = n
                     if any(_u(d) == "staticmethod" for d in n.decorator_list):
                         self.static.add(n.name)
+        # parameter names of functions / methods whose calls stay opaque (primitives of this module,
+        # functions of the modules in `sig_mods`): keyword arguments are put into positional order
+        self.signatures = {}
+        for m in list(sig_mods) + [mod]:
+            for n in m.body:
+                if isinstance(n, ast.FunctionDef):
+                    self.signatures[("global", n.name)] = _sig_of(n, False)
+        for name, fn in self.methods.items():
+            if name not in self.ambiguous:
+                self.signatures[("attr", ("self",), name)] = _sig_of(fn, name not in self.static)
         self.lazy_wrappers = {"delayed"}         # delayed(f)(args) is f(args), run later
         # idempotent set-up a value helper may do conditionally (create the directory it names)
         self.droppable = {"os.makedirs", "os.path.exists", "os.path.isdir", "os.path.join", "str"}
@@ -161,6 +171,28 @@ class Ctx:
         if name not in self.methods or name in self.ambiguous:
             _fail("missing (or ambiguous) method %s" % name)
         return self.methods[name]
+
+
+def _sig_of(fn, drop_self):
+    a = fn.args
+    if a.vararg or a.kwarg or a.kwonlyargs or a.posonlyargs:
+        return None
+    names = [x.arg for x in a.args]
+    return names[1:] if drop_self else names
+
+
+def positional(fv, args, kws, signatures):
+    """keyword arguments of a call to a function with a known signature, moved into positional
+    order as far as the positions are contiguous"""
+    sig = signatures.get(fv)
+    if not sig or not kws:
+        return args, kws
+    args, rest = list(args), dict(kws)
+    if any(k not in sig for k in rest) or len(args) > len(sig):
+        return args, kws
+    while len(args) < len(sig) and sig[len(args)] in rest:
+        args.append(rest.pop(sig[len(args)]))
+    return args, sorted(rest.items())
 
 
 def _lit(v):
@@ -375,13 +407,25 @@ class Exec:
             inner = ast.Call(func=f.args[0], args=e.args, keywords=e.keywords)
             ast.copy_location(inner, e)
             if self._helper_of(inner):
-                e = inner
+                if self._is_value_helper(inner, env):
+                    e = inner
+                else:
+                    # a helper with conditional effects cannot be a value here: keep the call opaque
+                    # (the caller finds the helper through the call term and examines it separately)
+                    fv = self.ev(inner.func, env, eff)
+                    args, kws = self._args(inner, env, eff)
+                    args, kws = positional(fv, args, kws, self.ctx.signatures)
+                    t = self.ctx.hook(("call", fv, tuple(args), tuple(sorted(kws))))
+                    if t[0] == "call":
+                        eff.append(t)
+                    return t
         hp = self._helper_of(e)
         if hp is not None:
             node = self.call_helper(hp, e, env, eff, lambda v: ("ret", v))
             return self._flatten(node, eff, e)
         fv = self.ev(e.func, env, eff)
         args, kws = self._args(e, env, eff)
+        args, kws = positional(fv, args, kws, self.ctx.signatures)
         t = self.ctx.hook(("call", fv, tuple(args), tuple(sorted(kws))))
         if t[0] == "call":
             eff.append(t)
@@ -558,12 +602,34 @@ class Exec:
                 e2.update(bound)
             else:
                 self._bind_target(s.target, lv, e2)
+            # accumulators: local lists that are empty before the loop and only appended to,
+            # unconditionally, once per iteration: `acc = []; for x in it: acc.append(f(x))` is the
+            # comprehension [f(x) for x in it]
+            accs = {}
+            for st in s.body:
+                if isinstance(st, ast.Expr) and isinstance(st.value, ast.Call) and isinstance(st.value.func, ast.Attribute) \
+                        and st.value.func.attr == "append" and isinstance(st.value.func.value, ast.Name) \
+                        and env.get(st.value.func.value.id) == ("list", ()) and len(st.value.args) == 1 \
+                        and not st.value.keywords:
+                    nm = st.value.func.value.id
+                    accs[nm] = accs.get(nm, 0) + 1
+            uses = {}
+            for n in ast.walk(s):
+                if isinstance(n, ast.Name) and n.id in accs:
+                    uses[n.id] = uses.get(n.id, 0) + 1
+            accs = {nm for nm, k in accs.items() if k == 1 and uses.get(nm) == 1}
+            for nm in accs:
+                e2[nm] = ("acc", nm, id(s))
             body = self.run(list(s.body), e2, lambda _e: ("end",), kr)
             # names assigned in the body are unknown afterwards
             e3 = dict(env)
             for n in ast.walk(s):
                 if isinstance(n, ast.Name) and isinstance(n.ctx, ast.Store):
                     e3[n.id] = ("afterloop", n.id, id(s))
+            if accs:
+                body, elts = _take_appends(body, {("acc", nm, id(s)): nm for nm in accs})
+                for nm, elt in elts.items():
+                    e3[nm] = ("comp", elt, lv, it)
             eff.append(("for", it, _target_names(s.target), body, lv))
             return _chain(eff, nxt(e3))
         _fail("unsupported statement", s)
@@ -661,6 +727,27 @@ class Exec:
 
     def run_function(self, fn, env):
         return self.run(_body(fn), env, lambda _e: ("ret", NONE), lambda v: ("ret", v))
+
+
+def _take_appends(node, accs):
+    """remove the `acc.append(elt)` operations of the accumulators from a straight-line loop body
+    -> (body without them, {name: elt})"""
+    effs = []
+    n = node
+    while n[0] == "eff":
+        effs.append(n[1])
+        n = n[2]
+    if n[0] == "if":
+        _fail("a loop that fills a list branches: not a comprehension")
+    elts, keep = {}, []
+    for e in effs:
+        if e[0] == "call" and e[1][0] == "attr" and e[1][2] == "append" and e[1][1] in accs and len(e[2]) == 1 and not e[3]:
+            elts[accs[e[1][1]]] = e[2][0]
+        else:
+            keep.append(e)
+    if len(elts) != len(accs):
+        _fail("a list filled in a loop is not appended to exactly once per iteration")
+    return _chain(keep, n), elts
 
 
 def _is_generator(fn):
